@@ -82,7 +82,7 @@ var ruleZipMarkers = &core.Rule{ID: "R19.1", Min: 8,
 				continue
 			}
 			a := calls[0].Common().Args
-			mk, okm := tree.ConstBytes(a[1])
+			mk, okm := detEnv(n).foldBytes(a[1]) // a constant, or folded through the constructor that built the detector
 			mso, okb := core.ConstBool(a[2])
 			okRaw := a[0] == ssa.Value(n.DetFn.Params[0])
 			okRet := false
